@@ -55,11 +55,31 @@ def main():
     # 3+4. correspondence and search (property specific)
     t1 = time.time()
     harness_exc = None
-    try:
-        mod.run(ctx)
-    except Exception:          # the implementation's output could not even be interpreted (never happens on the unchanged tree)
-        import traceback
-        harness_exc = traceback.format_exc()[-3000:]
+    # the thorough tier repeats correspondence + search under several seeds derived from VERIF_SEED (VERIF_THOROUGH_SEEDS, default 3)
+    rounds = 1 if tier == "quick" else max(1, int(os.environ.get("VERIF_THOROUGH_SEEDS", "3") or 3))
+    totals = {"evaluations": 0, "distinct_nontrivial": 0, "corr_cases": 0, "corr_disagreements": 0, "raw_output_drift": 0, "seeds": []}
+    for rd in range(rounds):
+        if rd:
+            ctx.rng = vlib.rng_for(pid, "%d+%d" % (seed, rd))
+            ctx.evaluations = ctx.distinct_nontrivial = 0
+            ctx.corr_stats = {"cases": 0, "disagreements": 0}
+        try:
+            mod.run(ctx)
+        except Exception:          # the implementation's output could not even be interpreted (never happens on the unchanged tree)
+            import traceback
+            harness_exc = traceback.format_exc()[-3000:]
+        totals["seeds"].append(seed if not rd else "%d+%d" % (seed, rd))
+        totals["evaluations"] += ctx.evaluations or 0
+        totals["distinct_nontrivial"] += ctx.distinct_nontrivial or 0
+        totals["corr_cases"] += ctx.corr_stats.get("cases", 0) or 0
+        totals["corr_disagreements"] += ctx.corr_stats.get("disagreements", 0) or 0
+        totals["raw_output_drift"] += ctx.corr_stats.get("raw_output_drift", 0) or 0
+        if harness_exc or ctx.failures or ctx.disagreements:
+            break
+    if rounds > 1:
+        ctx.evaluations, ctx.distinct_nontrivial = totals["evaluations"], totals["distinct_nontrivial"]
+        ctx.corr_stats = dict(ctx.corr_stats, cases=totals["corr_cases"], disagreements=totals["corr_disagreements"], raw_output_drift=totals["raw_output_drift"], rounds=totals["seeds"],
+                              note="per-label statistics are those of the last round; totals are over all rounds")
     t2 = time.time()
 
     # 5. verdict
